@@ -67,3 +67,5 @@ Proof.
   - intros (i & Hi & Hin). apply in_map_iff in Hin as (j & E & Hj). inversion E; subst. apply in_seq in Hi, Hj. lia.
   - intros H. exists a. split; [apply in_seq; lia|]. apply in_map_iff. exists b. split; [reflexivity | apply in_seq; lia].
 Qed.
+Lemma cross_map_pairs n a b : (In [a; b] (pairs_unique n) <-> (a < b < n)%nat) /\ (In [a; b] (pairs_any n) <-> (a <= b < n)%nat).
+Proof. split; [apply pairs_unique_spec | apply pairs_any_spec]. Qed.
